@@ -406,8 +406,9 @@ def rule_R11(src):
         body_expr = src[m.end():c].strip()
         var = m.group(3)
         loopvar = 'vx_k' if var == '_' else var
-        new = '{ let mut vx_out = Vec::new(); for %s in %s..%s { vx_out.push(%s); } vx_out }' % (loopvar, m.group(1).strip(), m.group(2).strip(), _flat(body_expr))
         end = c + 1 + tail.end()
+        nl = '\n' if src[m.start():end].count('\n') >= 1 else ' '
+        new = '{ let mut vx_out = Vec::new(); for %s in %s..%s {%svx_out.push(%s); } vx_out }' % (loopvar, m.group(1).strip(), m.group(2).strip(), nl, _flat(body_expr))
         out.append(src[pos:m.start()])
         out.append(_pad(new, src[m.start():end]))
         pos = end
@@ -435,8 +436,34 @@ def rule_R11b(src):
         amp = ''
         if recv.startswith('&'):
             amp, recv = '&', recv[1:]
-        new = amp + '{ let mut vx_out = Vec::new(); for %s in %s.iter() { let vx_e = %s; vx_out.push(vx_e); } vx_out }' % (m.group(2), recv, _flat(body_expr))
         end = c + 1 + tail.end()
+        nl = '\n' if src[m.start():end].count('\n') >= 1 else ' '
+        new = amp + '{ let mut vx_out = Vec::new(); for %s in %s.iter() {%slet vx_e = %s; vx_out.push(vx_e); } vx_out }' % (m.group(2), recv, nl, _flat(body_expr))
+        out.append(src[pos:m.start()])
+        out.append(_pad(new, src[m.start():end]))
+        pos = end
+        n += 1
+    out.append(src[pos:])
+    return ''.join(out), n
+
+
+def rule_R11d(src):
+    """c.many((lo..hi).map(|i| E));  ->  for i in lo..hi { c.one(E); }     (StridedConstraintConsumer::many yields each item with one())"""
+    mask = rl.code_mask(src)
+    out, pos, n = [], 0, 0
+    rx = re.compile(r'([A-Za-z_][A-Za-z0-9_]*)\.many\(\s*\(([^()]*?)\.\.([^()]*?)\)\s*\.map\(\|\s*([A-Za-z_][A-Za-z0-9_]*)\s*\|')
+    for m in rl.find_code(src, rx, mask=mask):
+        if m.start() < pos:
+            continue
+        o = src.index('.map(', m.start()) + 4
+        c = rl.match_bracket(src, o, mask)
+        tail = re.match(r'\s*\)\s*;', src[c + 1:])
+        if not tail:
+            continue
+        body_expr = src[m.end():c].strip()
+        end = c + 1 + tail.end()
+        nl = '\n' if src[m.start():end].count('\n') >= 1 else ' '
+        new = 'for %s in %s..%s {%s%s.one(%s); }' % (m.group(4), m.group(2).strip(), m.group(3).strip(), nl, m.group(1), _flat(body_expr))
         out.append(src[pos:m.start()])
         out.append(_pad(new, src[m.start():end]))
         pos = end
@@ -453,6 +480,7 @@ GLOBAL_RULES = [
     ('R5b', 'destructuring assignment `(a, b) = e;` -> temporary + field assignments', rule_R5b),
     ('R11', '(a..b).map(|i| E).collect() -> push loop', rule_R11),
     ('R11b', 'v.iter().map(|x| BODY).collect() -> push loop', rule_R11b),
+    ('R11d', 'consumer.many((a..b).map(|i| E)) -> for i in a..b { consumer.one(E) }', rule_R11d),
     ('R6', 'for-loops over slices (&v, .iter(), .enumerate(), .zip(), (a..b).rev()) -> index loops with element lets', rule_R6),
     ('R2', 'branch_hint() removed (empty asm!, no semantics)', _regex_rule(r'\bbranch_hint\(\)\s*;', '')),
     ('R3', 'plonky2_util::assume(p) renamed to util_assume(p) with `requires p` (assumption becomes an obligation)',
@@ -693,13 +721,23 @@ def extract_item(kv):
 
 
 def normalise(body, unit_rewrites):
+    """comment stripping, unit-local rewrites that match the source text, global rules, remaining unit-local rewrites"""
     fired = {}
     s = rl.strip_comments(body)
+    pending = []
+    for rid, rx, repl in unit_rewrites:
+        f = _regex_rule(rx, repl, re.S)
+        s2, n = f(s)
+        if n == 0:
+            pending.append((rid, rx, repl))
+        else:
+            s = s2
+            fired[rid] = fired.get(rid, 0) + n
     for rid, desc, f in GLOBAL_RULES:
         s, n = f(s)
         if n:
             fired[rid] = fired.get(rid, 0) + n
-    for rid, rx, repl in unit_rewrites:
+    for rid, rx, repl in pending:
         f = _regex_rule(rx, repl, re.S)
         s, n = f(s)
         if n == 0:
